@@ -42,7 +42,12 @@ func runC02(r *core.Run) {
 		world := lnmodel.NewWorld(r.Seed*1000 + int64(h))
 		world.AutoDeliver = false
 		fee0 := c02Fees[h%len(c02Fees)]
-		env, err := menv.New(world, "m0", core.TempDir("c02"), menv.Opts{FeePpk: fee0, MPP: h%2 == 0})
+		// a quarter of the histories each: gonuts' CLN / LND adapter and a fake CLN REST node / lnd gRPC server between mint and model
+		backend := map[int]string{3: "cln", 1: "lnd"}[h%4]
+		if backend != "" {
+			r.Count("histories_through_the_"+backend+"_adapter", 1)
+		}
+		env, err := menv.New(world, "m0", core.TempDir("c02"), menv.Opts{FeePpk: fee0, MPP: h%2 == 0, Backend: backend})
 		if err != nil {
 			r.Violate("setup", "cannot load mint: "+err.Error(), sig, nil)
 			return
@@ -59,7 +64,7 @@ func runC02(r *core.Run) {
 			switch reason {
 			case "outputs-exceed", "outputs-overflow", "signed-more-than-inputs-minus-fee", "signed-more-than-quote-amount",
 				"inputs-below-amount+reserve+fee", "nothing-left-after-fee", "more-signatures-than-outputs",
-				"internal-settlement-for-less-than-mint-quote", "quote-unpaid", "quote-already-issued", "input-spent", "input-pending", "input-paid-out-over-lightning", "duplicate-input-secret", "tampered-amount", "quote-paid", "quote-pending":
+				"internal-settlement-for-less-than-mint-quote", "quote-unpaid", "quote-already-issued", "invoice-for-less-than-the-quoted-amount", "input-spent", "input-pending", "input-paid-out-over-lightning", "duplicate-input-secret", "tampered-amount", "quote-paid", "quote-pending":
 				r.Violate("accepted:"+op+":"+reason, fmt.Sprintf("%s accepted although %s (%s)", op, reason, detail), sig, s.Tail(12))
 			default:
 				r.Observe("accepted-unexpectedly:"+reason, op+": "+detail)
